@@ -1,7 +1,7 @@
 (* Memfs/WalkExact.v — what the recursion of Memfs/WalkSpec.v yields on the entries index of a well-formed Memfs state
    (C08): consequences for `walk` read off the recursion. *)
 From stdpp Require Import gmap.
-From Coq Require Import NArith.
+From Coq Require Import NArith Sorting.Sorted.
 From RV Require Import Base.Str Path.Helpers Memfs.State Memfs.Walk Memfs.WalkFacts Memfs.WalkSpec Memfs.WalkTerm Memfs.Wf.
 
 Lemma wf_key_ok m : WF m → key_ok (m_ents m).
@@ -9,3 +9,589 @@ Proof. intros HW p e He. by apply (wf_key m HW). Qed.
 
 Theorem walk_nofollow_wf m o pre rootp : WF m → o_follow o = false → walk (m_ents m) o pre rootp ≠ inl OutOfFuel.
 Proof. intros HW. apply walk_nofollow_terminates. by apply wf_key_ok. Qed.
+
+(* ---- exactly the selected entries, each once ---- *)
+Definition oks (evs : list event) : list entry :=
+  flat_map (fun ev => match ev with EvItem (IOk x) => [x] | _ => [] end) evs.
+
+Lemma oks_app a b : oks (a ++ b) = oks a ++ oks b.
+Proof. unfold oks. by rewrite flat_map_app. Qed.
+Lemma oks_pre e evs : oks (EvPre e :: evs) = oks evs.
+Proof. done. Qed.
+Lemma oks_ok e evs : oks (EvItem (IOk e) :: evs) = e :: oks evs.
+Proof. done. Qed.
+
+(* x is an entry at or below p that the options select, p being met at depth d *)
+Definition sel_under (E : gmap rpath entry) (o : wopts) (p : rpath) (d : nat) (x : entry) : Prop :=
+  ∃ q, E !! q = Some x ∧ p `suffix_of` q ∧
+       selected o (d + (length q - length p)) x = true ∧ le_max (d + (length q - length p)) (o_max o) = true.
+
+Lemma under_child m j n p x : WF m → m_ents m !! (j ++ n :: p) = Some x →
+  ∃ c pe, m_ents m !! (n :: p) = Some c ∧ m_ents m !! p = Some pe ∧ real_dir pe ∧ n ∈ files_of pe.
+Proof.
+  intros HW Hx. destruct (wf_reachable m HW _ _ Hx (length j)) as [c Hc]; [rewrite app_length; lia|].
+  rewrite (drop_app_alt j (n :: p) (length j) eq_refl) in Hc. exists c. destruct (wf_par m HW _ _ _ Hc) as (pe & Hpe & Hrd & Hin). eauto.
+Qed.
+
+Lemma child_entries_full (E : gmap rpath entry) p ns : (∀ n, n ∈ ns → is_Some (E !! (n :: p))) →
+  ∀ n c, n ∈ ns → E !! (n :: p) = Some c → c ∈ child_entries E p false ns.
+Proof.
+  induction ns as [|n0 ns IH]; intros Hall n c Hn Hc; [by apply elem_of_nil in Hn|].
+  cbn [child_entries]. destruct (Hall n0 ltac:(left)) as [c0 Hc0]. rewrite Hc0.
+  apply elem_of_cons in Hn as [->|Hn]; [rewrite Hc0 in Hc; simplify_eq; left|].
+  right. eapply IH; [intros; apply Hall; by right|exact Hn|exact Hc].
+Qed.
+
+Lemma strict_under_split {A} (p q : list A) : p `suffix_of` q → q ≠ p → ∃ j n, q = j ++ n :: p.
+Proof.
+  intros [j ->] Hne. destruct j as [|a j] using rev_ind; [done|]. exists j, a. by rewrite <- app_assoc.
+Qed.
+
+Lemma kids_exact (f : entry → option (list event)) (P : entry → entry → Prop) (p : rpath) l : ∀ kids,
+  concat_opt (map f l) = Some kids →
+  (∀ c evs, c ∈ l → f c = Some evs → (∀ x, x ∈ oks evs ↔ P c x) ∧ NoDup (map e_path (oks evs))) →
+  (∀ c x, c ∈ l → P c x → e_path c `suffix_of` e_path x) →
+  NoDup (map e_path l) → (∀ c, c ∈ l → ∃ n, e_path c = n :: p) →
+  (∀ x, x ∈ oks kids ↔ ∃ c, c ∈ l ∧ P c x) ∧ NoDup (map e_path (oks kids)).
+Proof.
+  induction l as [|c l IH]; intros kids Hc Hf Hsuf Hnd Hp.
+  - cbn in Hc. simplify_eq. split; [|constructor]. intros x. split; [by intros H%elem_of_nil|]. intros (c & Hc & _). by apply elem_of_nil in Hc.
+  - cbn [map concat_opt] in Hc. destruct (f c) as [evs|] eqn:Ef; [|done]. destruct (concat_opt _) as [kids'|] eqn:Ek; [|done]. simplify_eq.
+    cbn [map] in Hnd. apply NoDup_cons in Hnd as [Hnc Hnd].
+    destruct (Hf c evs ltac:(left) Ef) as [Hiff Hnd1].
+    destruct (IH kids' eq_refl ltac:(intros; apply Hf; [by right|done]) ltac:(intros; apply Hsuf; [by right|done]) Hnd ltac:(intros; apply Hp; by right)) as [Hiff' Hnd2].
+    rewrite oks_app. split.
+    + intros x. rewrite elem_of_app, Hiff, Hiff'. split.
+      * intros [H|(c' & Hc' & H)]; [exists c; split; [left|done]|exists c'; split; [by right|done]].
+      * intros (c' & [->|Hc']%elem_of_cons & H); [by left|right; eauto].
+    + rewrite map_app. apply NoDup_app. split; [done|]. split; [|done].
+      intros y Hy1 Hy2. apply elem_of_list_fmap in Hy1 as (x & -> & Hx). apply elem_of_list_fmap in Hy2 as (x' & Hpx & Hx').
+      apply Hiff in Hx. apply Hiff' in Hx' as (c' & Hc' & Hx').
+      pose proof (Hsuf c x ltac:(left) Hx) as S1. pose proof (Hsuf c' x' ltac:(by right) Hx') as S2.
+      destruct (Hp c ltac:(left)) as [n En]. destruct (Hp c' ltac:(by right)) as [n' En']. rewrite En in S1. rewrite En', <- Hpx in S2.
+      pose proof (suffix_cons_same _ _ _ _ S1 S2) as ->. apply Hnc. rewrite En, <- En'. by apply elem_of_list_fmap_1.
+Qed.
+
+Lemma enters_nofollow o e : o_follow o = false → enters o e = e_dir e && negb (e_link e).
+Proof. unfold enters. intros ->. by rewrite orb_false_r. Qed.
+
+Lemma le_max_S d mx : lt_max d mx = true → le_max (S d) mx = true.
+Proof. destruct mx as [k|]; unfold lt_max, le_max; [|done]. intros H%Nat.ltb_lt. apply Nat.leb_le. lia. Qed.
+
+Lemma lt_max_false d mx d' : lt_max d mx = false → d < d' → le_max d' mx = false.
+Proof. destruct mx as [k|]; unfold lt_max, le_max; [|done]. intros H%Nat.ltb_ge Hd. apply Nat.leb_gt. lia. Qed.
+
+Lemma sw_exact h : ∀ m o pre stack e p evs, WF m → o_follow o = false → (∀ x, pre x = None) →
+  m_ents m !! p = Some e → le_max (length stack) (o_max o) = true →
+  sw h (m_ents m) o pre stack e = Some evs →
+  (∀ x, x ∈ oks evs ↔ sel_under (m_ents m) o p (length stack) x) ∧ NoDup (map e_path (oks evs)).
+Proof.
+  induction h as [|h IH]; intros m o pre stack e p evs HW Hnf Hpre He Hmax Hsw; [done|].
+  pose proof (wf_key m HW _ _ He) as Hp. rewrite sw_S in Hsw. cbn zeta in Hsw.
+  rewrite (loops_nofollow o stack e Hnf), (enters_nofollow o e Hnf), Hpre in Hsw.
+  set (d := length stack) in *.
+  (* the entry itself *)
+  assert (Hself : ∀ x, sel_under (m_ents m) o p d x → e_path x = p → x = e ∧ selected o d e = true).
+  { intros x (q & Hq & Hs & Hsel & _) Hxp. rewrite (wf_key m HW _ _ Hq) in Hxp. subst q. rewrite He in Hq. simplify_eq.
+    rewrite Nat.sub_diag, Nat.add_0_r in Hsel. done. }
+  assert (Hmk : selected o d e = true → sel_under (m_ents m) o p d e).
+  { intros Hsel. exists p. rewrite Nat.sub_diag, Nat.add_0_r. done. }
+  destruct (e_dir e && negb (e_link e) && lt_max d (o_max o)) eqn:Eent.
+  - (* entered *)
+    apply andb_true_iff in Eent as [Hrd Hlt]. apply andb_true_iff in Hrd as [Hdir Hnl]. apply negb_true_iff in Hnl.
+    unfold children in Hsw. rewrite Hp, He, Hnf in Hsw.
+    set (ns := match e_files e with Some fs => elements fs | None => [] end) in *.
+    set (cs := child_entries (m_ents m) p false ns) in *.
+    destruct (concat_opt _) as [kids|] eqn:Ek; [|done].
+    pose proof (arrange_perm o cs) as Hperm.
+    assert (Hns : NoDup ns) by (subst ns; destruct (e_files e); [apply NoDup_elements|constructor]).
+    assert (Hcs : ∀ c, c ∈ arrange o cs → ∃ n, n ∈ ns ∧ m_ents m !! (n :: p) = Some c)
+      by (intros c Hc; rewrite Hperm in Hc; by apply child_entries_spec in Hc).
+    assert (Hnd : NoDup (map e_path (arrange o cs))) by (rewrite Hperm; apply child_entries_nodup; [by apply wf_key_ok|done]).
+    assert (Hpaths : ∀ c, c ∈ arrange o cs → ∃ n, e_path c = n :: p)
+      by (intros c Hc; destruct (Hcs c Hc) as (n & _ & Hn); exists n; by apply (wf_key m HW)).
+    destruct (kids_exact (sw h (m_ents m) o pre (p :: stack)) (fun c x => sel_under (m_ents m) o (e_path c) (S d) x) p (arrange o cs) kids Ek) as [Hiff Hndk].
+    { intros c evs' Hc Hf. destruct (Hcs c Hc) as (n & _ & Hn). rewrite (wf_key m HW _ _ Hn).
+      apply (IH m o pre (p :: stack) c (n :: p) evs' HW Hnf Hpre Hn); [by apply le_max_S|done]. }
+    { intros c x Hc (q & Hq & Hs & _). by rewrite (wf_key m HW _ _ Hq). }
+    { done. } { done. }
+    (* membership in the children's events *)
+    assert (Hkids : ∀ x, x ∈ oks kids ↔ sel_under (m_ents m) o p d x ∧ e_path x ≠ p).
+    { intros x. rewrite Hiff. split.
+      - intros (c & Hc & q & Hq & Hs & Hsel & Hle). destruct (Hcs c Hc) as (n & _ & Hn). rewrite (wf_key m HW _ _ Hn) in Hs.
+        assert (Hlen : length p < length q) by (apply suffix_length in Hs; cbn in Hs; lia).
+        rewrite (wf_key m HW _ _ Hn) in Hsel, Hle. cbn [length] in Hsel, Hle.
+        replace (S d + (length q - S (length p))) with (d + (length q - length p)) in * by lia.
+        split; [exists q; split; [done|]; split; [by eapply suffix_cons_l|done]|].
+        rewrite (wf_key m HW _ _ Hq). intros ->. lia.
+      - intros [(q & Hq & Hs & Hsel & Hle) Hne]. rewrite (wf_key m HW _ _ Hq) in Hne.
+        destruct (strict_under_split p q Hs Hne) as (j & n & ->).
+        destruct (under_child m j n p x HW Hq) as (c & pe & Hc & Hpe & _ & Hin). rewrite He in Hpe. simplify_eq.
+        assert (Hn : n ∈ ns). { subst ns. unfold files_of in Hin. destruct (e_files pe); cbn in Hin; [by apply elem_of_elements|set_solver]. }
+        exists c. split.
+        + rewrite Hperm. eapply child_entries_full; [|exact Hn|exact Hc].
+          intros n' Hn'. apply (wf_chl m HW _ _ _ He). subst ns. unfold files_of. destruct (e_files pe); cbn; [by apply elem_of_elements|by apply elem_of_nil in Hn'].
+        + rewrite (wf_key m HW _ _ Hc). exists (j ++ n :: e_path pe). split; [done|]. split; [by apply suffix_app_r|].
+          rewrite app_length in *. cbn [length] in *.
+          replace (S d + (length j + S (length (e_path pe)) - S (length (e_path pe)))) with (d + (length j + S (length (e_path pe)) - length (e_path pe))) by lia.
+          done. }
+    assert (Hnp : p ∉ map e_path (oks kids)).
+    { intros Hin. apply elem_of_list_fmap in Hin as (x & Hx & Hin). apply Hkids in Hin as [_ Hne]. done. }
+    destruct (selected o d e) eqn:Esel; [destruct (e_dir e && o_contents_first o)|]; simplify_eq.
+    + rewrite oks_pre, oks_app, oks_ok. cbn [oks flat_map]. split.
+      * intros x. rewrite elem_of_app, elem_of_list_singleton, Hkids. split.
+        -- intros [[H _]| ->]; [done|by apply Hmk].
+        -- intros H. destruct (decide (e_path x = e_path e)) as [Heq|Hne]; [right; by apply (Hself x H)|by left].
+      * rewrite map_app. cbn [map]. apply NoDup_app. split; [done|]. split; [|apply NoDup_singleton].
+        intros y Hy Hy2. apply elem_of_list_singleton in Hy2 as ->. done.
+    + rewrite oks_pre, oks_ok. split.
+      * intros x. rewrite elem_of_cons, Hkids. split.
+        -- intros [->|[H _]]; [by apply Hmk|done].
+        -- intros H. destruct (decide (e_path x = e_path e)) as [Heq|Hne]; [left; by apply (Hself x H)|by right].
+      * cbn [map]. apply NoDup_cons. done.
+    + rewrite oks_pre. split; [|done]. intros x. rewrite Hkids. split; [by intros [H _]|].
+      intros H. split; [done|]. intros Heq. destruct (Hself x H Heq) as [_ ?]. congruence.
+  - (* not entered: nothing below it is selected *)
+    assert (Hnone : ∀ x, sel_under (m_ents m) o p d x → e_path x = p).
+    { intros x (q & Hq & Hs & Hsel & Hle). rewrite (wf_key m HW _ _ Hq).
+      destruct (decide (q = p)) as [|Hne]; [done|]. exfalso.
+      destruct (strict_under_split p q Hs Hne) as (j & n & ->).
+      destruct (under_child m j n p x HW Hq) as (c & pe & Hc & Hpe & [Hd Hl] & Hin). rewrite He in Hpe. simplify_eq.
+      rewrite Hd, Hl in Eent. cbn [negb andb] in Eent.
+      rewrite (lt_max_false d (o_max o) _ Eent) in Hle; [done|]. rewrite app_length. cbn. lia. }
+    destruct (selected o d e) eqn:Esel; simplify_eq.
+    + cbn [oks flat_map app map]. split; [|apply NoDup_singleton]. intros x. rewrite elem_of_list_singleton. split; [intros ->; by apply Hmk|].
+      intros H. by apply (Hself x H (Hnone x H)).
+    + split; [|constructor]. intros x. split; [by intros H%elem_of_nil|]. intros H. destruct (Hself x H (Hnone x H)) as [_ ?]. congruence.
+Qed.
+
+(* ---- no error items without links, on a well-formed state ---- *)
+Definition noerr (ev : event) : Prop := match ev with EvItem (IErr _) => False | _ => True end.
+
+Lemma concat_opt_forall {A B} (Q : A → Prop) (f : B → option (list A)) (l : list B) : ∀ kids,
+  concat_opt (map f l) = Some kids → (∀ c evs, c ∈ l → f c = Some evs → Forall Q evs) → Forall Q kids.
+Proof.
+  induction l as [|c l IH]; intros kids Hc Hf; cbn [map concat_opt] in Hc; [by simplify_eq|].
+  destruct (f c) as [evs|] eqn:Ef; [|done]. destruct (concat_opt _) as [kids'|] eqn:Ek; [|done]. simplify_eq.
+  apply Forall_app. split; [apply (Hf c); [left|done]|]. apply IH; [done|]. intros; eapply Hf; [by right|done].
+Qed.
+
+Lemma sw_no_errors h : ∀ m o pre stack e p evs, WF m → o_follow o = false → (∀ x, pre x = None) →
+  m_ents m !! p = Some e → sw h (m_ents m) o pre stack e = Some evs → Forall noerr evs.
+Proof.
+  induction h as [|h IH]; intros m o pre stack e p evs HW Hnf Hpre He Hsw; [done|].
+  pose proof (wf_key m HW _ _ He) as Hp. rewrite sw_S in Hsw. cbn zeta in Hsw.
+  rewrite (loops_nofollow o stack e Hnf), Hpre in Hsw.
+  destruct (enters o e && lt_max (length stack) (o_max o)).
+  - unfold children in Hsw. rewrite Hp, He, Hnf in Hsw.
+    set (cs := child_entries (m_ents m) p false _) in *.
+    destruct (concat_opt _) as [kids|] eqn:Ek; [|done].
+    assert (Hk : Forall noerr kids).
+    { eapply concat_opt_forall; [exact Ek|]. intros c evs' Hc Hf. rewrite (arrange_perm o cs) in Hc.
+      apply child_entries_spec in Hc as (n & _ & Hn). by eapply (IH m o pre (p :: stack) c (n :: p)). }
+    destruct (selected o (length stack) e); [destruct (e_dir e && o_contents_first o)|]; simplify_eq.
+    + apply Forall_cons. split; [done|]. apply Forall_app. split; [done|]. by apply Forall_singleton.
+    + apply Forall_cons. split; [done|]. apply Forall_cons. done.
+    + apply Forall_cons. done.
+  - destruct (selected o (length stack) e); simplify_eq; [by apply Forall_singleton|constructor].
+Qed.
+
+Lemma noerr_items evs : Forall noerr evs → items_of evs = map IOk (oks evs).
+Proof.
+  induction evs as [|ev evs IH]; intros H; [done|]. apply Forall_cons in H as [H1 H2].
+  destruct ev as [e|[x|w]]; cbn in H1; [|..|done].
+  - rewrite items_of_pre, oks_pre. by apply IH.
+  - rewrite items_of_item, oks_ok. cbn [map]. f_equal. by apply IH.
+Qed.
+
+(* C08, links not followed, no pre_op error: the traversal of a well-formed state terminates and yields exactly the entries at
+   or below the start that the depth window and the filter select - every one of them, nothing else, no errors, each once *)
+Theorem walk_exact m o pre rootp r : WF m → o_follow o = false → (∀ x, pre x = None) → m_ents m !! rootp = Some r →
+  ∃ evs, walk (m_ents m) o pre rootp = inl (Done evs) ∧
+    items_of evs = map IOk (oks evs) ∧
+    (∀ x, x ∈ oks evs ↔ ∃ q, m_ents m !! q = Some x ∧ rootp `suffix_of` q ∧
+                          selected o (length q - length rootp) x = true ∧ le_max (length q - length rootp) (o_max o) = true) ∧
+    NoDup (map e_path (oks evs)).
+Proof.
+  intros HW Hnf Hpre Hr. destruct (walk_nofollow (m_ents m) o pre rootp r (wf_key_ok m HW) Hnf Hr) as (h & evs & Hsw & Hw).
+  exists evs. split; [done|]. unfold sw_walk in Hsw. rewrite Hnf in Hsw.
+  assert (Hm : le_max (length (@nil rpath)) (o_max o) = true) by (destruct (o_max o); done).
+  destruct (sw_exact h m o pre [] r rootp evs HW Hnf Hpre Hr Hm Hsw) as [Hiff Hnd].
+  split; [apply noerr_items; by eapply sw_no_errors|]. split; [|done]. exact Hiff.
+Qed.
+
+(* ---- order: parents before their contents, after them with contents_first ---- *)
+Definition before (l : list entry) (a b : entry) : Prop := ∃ l1 l2 l3, l = l1 ++ a :: l2 ++ b :: l3.
+
+Lemma before_mid A B l a b : before l a b → before (A ++ l ++ B) a b.
+Proof. intros (l1 & l2 & l3 & ->). exists (A ++ l1), l2, (l3 ++ B). rewrite <- !app_assoc. cbn [app]. rewrite <- !app_assoc. done. Qed.
+
+Lemma before_cons_in a l b : b ∈ l → before (a :: l) a b.
+Proof. intros (l2 & l3 & ->)%elem_of_list_split. by exists [], l2, l3. Qed.
+
+Lemma before_snoc_in l a b : a ∈ l → before (l ++ [b]) a b.
+Proof. intros (l1 & l2 & ->)%elem_of_list_split. exists l1, l2, []. by rewrite <- app_assoc. Qed.
+
+Lemma concat_opt_parts {A B} (f : B → option (list A)) (l : list B) : ∀ kids,
+  concat_opt (map f l) = Some kids → ∀ c, c ∈ l → ∃ evs X Y, f c = Some evs ∧ kids = X ++ evs ++ Y.
+Proof.
+  induction l as [|c0 l IH]; intros kids Hc c Hin; [by apply elem_of_nil in Hin|].
+  cbn [map concat_opt] in Hc. destruct (f c0) as [evs0|] eqn:Ef; [|done]. destruct (concat_opt _) as [kids'|] eqn:Ek; [|done]. simplify_eq.
+  apply elem_of_cons in Hin as [->|Hin].
+  - exists evs0, [], kids'. done.
+  - destruct (IH kids' eq_refl c Hin) as (evs & X & Y & Hf & ->). exists evs, (evs0 ++ X), Y. by rewrite <- app_assoc.
+Qed.
+
+Lemma nodup_path_inj (l : list entry) c c' : NoDup (map e_path l) → c ∈ l → c' ∈ l → e_path c = e_path c' → c = c'.
+Proof.
+  induction l as [|a l IH]; intros Hnd Hc Hc' Hp; [by apply elem_of_nil in Hc|].
+  cbn [map] in Hnd. apply NoDup_cons in Hnd as [Hna Hnd].
+  apply elem_of_cons in Hc as [->|Hc]; apply elem_of_cons in Hc' as [->|Hc']; [done| | |by apply IH].
+  - exfalso. apply Hna. rewrite Hp. by apply elem_of_list_fmap_1.
+  - exfalso. apply Hna. rewrite <- Hp. by apply elem_of_list_fmap_1.
+Qed.
+
+Definition strictly_above (x y : entry) : Prop := e_path x `suffix_of` e_path y ∧ e_path x ≠ e_path y.
+
+Lemma sw_order h : ∀ m o pre stack e p evs, WF m → o_follow o = false → (∀ x, pre x = None) →
+  m_ents m !! p = Some e → le_max (length stack) (o_max o) = true →
+  sw h (m_ents m) o pre stack e = Some evs →
+  ∀ x y, x ∈ oks evs → y ∈ oks evs → strictly_above x y →
+    if o_contents_first o then before (oks evs) y x else before (oks evs) x y.
+Proof.
+  induction h as [|h IH]; intros m o pre stack e p evs HW Hnf Hpre He Hmax Hsw x y Hx Hy [Hxy Hne]; [done|].
+  destruct (sw_exact (S h) m o pre stack e p evs HW Hnf Hpre He Hmax Hsw) as [Hiff _].
+  pose proof (wf_key m HW _ _ He) as Hp. rewrite sw_S in Hsw. cbn zeta in Hsw.
+  rewrite (loops_nofollow o stack e Hnf), (enters_nofollow o e Hnf), Hpre in Hsw.
+  set (d := length stack) in *.
+  assert (Hunder : ∀ z, z ∈ oks evs → p `suffix_of` e_path z).
+  { intros z Hz. apply Hiff in Hz as (q & Hq & Hs & _). by rewrite (wf_key m HW _ _ Hq). }
+  assert (Hyp : e_path y ≠ p).
+  { intros Hyp. rewrite Hyp in Hxy, Hne. pose proof (Hunder x Hx) as Hpx. apply Hne. by apply (anti_symm suffix). }
+  destruct (e_dir e && negb (e_link e) && lt_max d (o_max o)) eqn:Eent.
+  - apply andb_true_iff in Eent as [Hrd Hlt]. apply andb_true_iff in Hrd as [Hdir Hnl].
+    unfold children in Hsw. rewrite Hp, He, Hnf in Hsw.
+    set (ns := match e_files e with Some fs => elements fs | None => [] end) in *.
+    set (cs := child_entries (m_ents m) p false ns) in *.
+    destruct (concat_opt _) as [kids|] eqn:Ek; [|done].
+    pose proof (arrange_perm o cs) as Hperm.
+    assert (Hns : NoDup ns) by (subst ns; destruct (e_files e); [apply NoDup_elements|constructor]).
+    assert (Hcs : ∀ c, c ∈ arrange o cs → ∃ n, n ∈ ns ∧ m_ents m !! (n :: p) = Some c)
+      by (intros c Hc; rewrite Hperm in Hc; by apply child_entries_spec in Hc).
+    assert (Hnd : NoDup (map e_path (arrange o cs))) by (rewrite Hperm; apply child_entries_nodup; [by apply wf_key_ok|done]).
+    (* an item of the children's events lies in one child's events, under that child *)
+    assert (Hpart : ∀ z, z ∈ oks kids → ∃ c n evs' X Y, c ∈ arrange o cs ∧ m_ents m !! (n :: p) = Some c ∧
+               sw h (m_ents m) o pre (p :: stack) c = Some evs' ∧ kids = X ++ evs' ++ Y ∧ z ∈ oks evs' ∧ (n :: p) `suffix_of` e_path z).
+    { assert (Hpaths : ∀ c, c ∈ arrange o cs → ∃ n, e_path c = n :: p)
+        by (intros c Hc; destruct (Hcs c Hc) as (n & _ & Hn); exists n; by apply (wf_key m HW)).
+      destruct (kids_exact (sw h (m_ents m) o pre (p :: stack)) (fun c x => sel_under (m_ents m) o (e_path c) (S d) x) p (arrange o cs) kids Ek) as [Hiffk _].
+      { intros c evs' Hc Hf. destruct (Hcs c Hc) as (n & _ & Hn). rewrite (wf_key m HW _ _ Hn).
+        apply (sw_exact h m o pre (p :: stack) c (n :: p) evs' HW Hnf Hpre Hn); [by apply le_max_S|done]. }
+      { intros c z Hc (q & Hq & Hs & _). by rewrite (wf_key m HW _ _ Hq). }
+      { done. } { done. }
+      intros z Hz. apply Hiffk in Hz as (c & Hc & Hsel). destruct (Hcs c Hc) as (n & _ & Hn).
+      destruct (concat_opt_parts _ _ _ Ek c Hc) as (evs' & X & Y & Hf & HK).
+      exists c, n, evs', X, Y. split; [done|]. split; [done|]. split; [done|]. split; [done|].
+      destruct (sw_exact h m o pre (p :: stack) c (n :: p) evs' HW Hnf Hpre Hn ltac:(by apply le_max_S) Hf) as [Hiffc _].
+      rewrite (wf_key m HW _ _ Hn) in Hsel. split; [by apply Hiffc|].
+      destruct Hsel as (q & Hq & Hs & _). by rewrite (wf_key m HW _ _ Hq). }
+    (* both below p: they are in the same child's events *)
+    assert (Hboth : x ∈ oks kids → y ∈ oks kids →
+              if o_contents_first o then before (oks kids) y x else before (oks kids) x y).
+    { intros Hxk Hyk. destruct (Hpart x Hxk) as (c & n & evs' & X & Y & Hc & Hn & Hf & HK & Hxc & Hsx).
+      destruct (Hpart y Hyk) as (c' & n' & evs'' & X' & Y' & Hc' & Hn' & Hf' & HK' & Hyc & Hsy).
+      assert (n = n') as <- by (eapply suffix_cons_same; [exact (transitivity Hsx Hxy)|exact Hsy]).
+      rewrite Hn in Hn'. injection Hn' as <-. rewrite Hf in Hf'. injection Hf' as <-.
+      pose proof (IH m o pre (p :: stack) c (n :: p) evs' HW Hnf Hpre Hn ltac:(by apply le_max_S) Hf x y Hxc Hyc (conj Hxy Hne)) as Hb.
+      rewrite HK, !oks_app. destruct (o_contents_first o); by apply before_mid. }
+    assert (Hyk : y ∈ oks kids → e_path x = p → x = e).
+    { intros _ Hxp. apply Hiff in Hx as (q & Hq & _). rewrite (wf_key m HW _ _ Hq) in Hxp. subst q. rewrite He in Hq. by simplify_eq. }
+    destruct (selected o d e) eqn:Esel; [destruct (e_dir e && o_contents_first o) eqn:Ecf|]; simplify_eq.
+    + apply andb_true_iff in Ecf as [_ Hcf]. rewrite Hcf in *. rewrite oks_pre, oks_app, oks_ok in *. cbn [oks flat_map] in *.
+      apply elem_of_app in Hy as [Hy|Hy%elem_of_list_singleton]; [|by subst y].
+      apply elem_of_app in Hx as [Hx|Hx%elem_of_list_singleton].
+      * destruct (Hboth Hx Hy) as (l1 & l2 & l3 & ->). exists l1, l2, (l3 ++ [e]). rewrite <- !app_assoc. cbn [app]. rewrite <- !app_assoc. done.
+      * subst x. by apply before_snoc_in.
+    + rewrite Hdir in Ecf. cbn [andb] in Ecf. rewrite Ecf in *. rewrite oks_pre, oks_ok in *.
+      apply elem_of_cons in Hy as [->|Hy]; [done|].
+      apply elem_of_cons in Hx as [->|Hx]; [by apply before_cons_in|].
+      destruct (Hboth Hx Hy) as (l1 & l2 & l3 & ->). exists (e :: l1), l2, l3. done.
+    + rewrite oks_pre in *. by apply Hboth.
+  - (* not entered: at most e itself *)
+    exfalso. destruct (selected o d e); simplify_eq; cbn [oks flat_map app] in *.
+    + apply elem_of_list_singleton in Hy as ->. done.
+    + by apply elem_of_nil in Hy.
+Qed.
+
+Theorem walk_order m o pre rootp r evs : WF m → o_follow o = false → (∀ x, pre x = None) → m_ents m !! rootp = Some r →
+  walk (m_ents m) o pre rootp = inl (Done evs) →
+  ∀ x y, x ∈ oks evs → y ∈ oks evs → strictly_above x y →
+    if o_contents_first o then before (oks evs) y x else before (oks evs) x y.
+Proof.
+  intros HW Hnf Hpre Hr Hw. destruct (walk_nofollow (m_ents m) o pre rootp r (wf_key_ok m HW) Hnf Hr) as (h & evs' & Hsw & Hw').
+  rewrite Hw in Hw'. simplify_eq. unfold sw_walk in Hsw. rewrite Hnf in Hsw.
+  assert (Hm : le_max (length (@nil rpath)) (o_max o) = true) by (destruct (o_max o); done).
+  exact (sw_order h m o pre [] r rootp evs' HW Hnf Hpre Hr Hm Hsw).
+Qed.
+
+(* ---- order: siblings by name, grouped by kind with dirs_first / files_first ---- *)
+Lemma name_leb_total a : ∀ b, name_leb a b = false → name_leb b a = true.
+Proof.
+  induction a as [|x a IH]; intros [|y b]; cbn; try done.
+  destruct (x <? y)%N eqn:E1; [done|]. destruct (y <? x)%N eqn:E2; [done|]. apply IH.
+Qed.
+Lemma name_leb_trans a : ∀ b c, name_leb a b = true → name_leb b c = true → name_leb a c = true.
+Proof.
+  induction a as [|x a IH]; intros [|y b] [|z c]; cbn; try done.
+  destruct (x <? y)%N eqn:E1; destruct (y <? z)%N eqn:E2; destruct (y <? x)%N eqn:E3; destruct (z <? y)%N eqn:E4; try done;
+    rewrite ?N.ltb_lt, ?N.ltb_ge in *; intros H1 H2;
+    destruct (x <? z)%N eqn:E5; try done; destruct (z <? x)%N eqn:E6; rewrite ?N.ltb_lt, ?N.ltb_ge in *; try lia.
+  by eapply IH.
+Qed.
+Lemma name_leb_antisym a : ∀ b, name_leb a b = true → name_leb b a = true → a = b.
+Proof.
+  induction a as [|x a IH]; intros [|y b]; cbn; try done.
+  destruct (x <? y)%N eqn:E1; destruct (y <? x)%N eqn:E2; rewrite ?N.ltb_lt, ?N.ltb_ge in *; try done; try lia.
+  intros H1 H2. assert (x = y) as -> by lia. f_equal. by apply IH.
+Qed.
+
+Definition R_ent (a b : entry) : Prop := ent_leb a b = true.
+
+Lemma ent_leb_total a b : ent_leb a b = false → ent_leb b a = true.
+Proof. unfold ent_leb, oname_leb. destruct (file_name_of a), (file_name_of b); try done. apply name_leb_total. Qed.
+Lemma ent_leb_trans a b c : R_ent a b → R_ent b c → R_ent a c.
+Proof. unfold R_ent, ent_leb, oname_leb. destruct (file_name_of a), (file_name_of b), (file_name_of c); try done. apply name_leb_trans. Qed.
+Lemma ent_leb_antisym a b : R_ent a b → R_ent b a → file_name_of a = file_name_of b.
+Proof. unfold R_ent, ent_leb, oname_leb. destruct (file_name_of a), (file_name_of b); try done. intros H1 H2. f_equal. by apply name_leb_antisym. Qed.
+
+Lemma insert_sorted_sorted x l : StronglySorted R_ent l → StronglySorted R_ent (insert_sorted x l).
+Proof.
+  induction l as [|y l IH]; intros Hs; cbn [insert_sorted]; [by repeat constructor|].
+  apply StronglySorted_inv in Hs as [Hs Hy]. destruct (ent_leb y x) eqn:E.
+  - constructor; [by apply IH|]. rewrite insert_sorted_perm. by constructor.
+  - apply ent_leb_total in E. constructor; [by constructor|]. constructor; [done|].
+    eapply Forall_impl; [exact Hy|]. intros z Hz. by eapply ent_leb_trans.
+Qed.
+Lemma sort_ents_sorted l : StronglySorted R_ent (sort_ents l).
+Proof. induction l as [|x l IH]; [constructor|]. cbn. by apply insert_sorted_sorted. Qed.
+
+Definition split_before (l : list entry) (a b : entry) : Prop := ∃ L1 L2 L3, l = L1 ++ a :: L2 ++ b :: L3.
+
+Lemma sorted_before l a b : StronglySorted R_ent l → a ∈ l → b ∈ l → a ≠ b → ¬ R_ent b a → split_before l a b.
+Proof.
+  induction l as [|c l IH]; intros Hs Ha Hb Hne Hnr; [by apply elem_of_nil in Ha|].
+  apply StronglySorted_inv in Hs as [Hs Hc].
+  apply elem_of_cons in Ha as [->|Ha]; apply elem_of_cons in Hb as [->|Hb]; [done| | |].
+  - apply elem_of_list_split in Hb as (L2 & L3 & ->). by exists [], L2, L3.
+  - exfalso. apply Hnr. rewrite Forall_forall in Hc. by apply Hc.
+  - destruct (IH Hs Ha Hb Hne Hnr) as (L1 & L2 & L3 & ->). by exists (c :: L1), L2, L3.
+Qed.
+
+Lemma app_before l1 l2 a b : a ∈ l1 → b ∈ l2 → split_before (l1 ++ l2) a b.
+Proof.
+  intros (A1 & A2 & ->)%elem_of_list_split (B1 & B2 & ->)%elem_of_list_split. exists A1, (A2 ++ B1), B2.
+  rewrite <- ?app_assoc. cbn [app]. by rewrite <- ?app_assoc.
+Qed.
+Lemma split_before_l l1 l2 a b : split_before l1 a b → split_before (l1 ++ l2) a b.
+Proof. intros (A & B & C & ->). exists A, B, (C ++ l2). rewrite <- ?app_assoc. cbn [app]. by rewrite <- ?app_assoc. Qed.
+Lemma split_before_r l1 l2 a b : split_before l2 a b → split_before (l1 ++ l2) a b.
+Proof. intros (A & B & C & ->). exists (l1 ++ A), B, C. by rewrite <- !app_assoc. Qed.
+
+(* the sibling order the options ask for *)
+Definition sib_le (o : wopts) (x y : entry) : bool :=
+  if o_dirs_first o then (e_dir x && negb (e_dir y)) || (eqb (e_dir x) (e_dir y) && ent_leb x y)
+  else if o_files_first o then (negb (e_dir x) && e_dir y) || (eqb (e_dir x) (e_dir y) && ent_leb x y)
+  else ent_leb x y.
+
+Lemma arrange_before o cs c c' : o_sort o = true → c ∈ cs → c' ∈ cs → file_name_of c ≠ file_name_of c' →
+  sib_le o c c' = true → split_before (arrange o cs) c c'.
+Proof.
+  intros Hso Hc Hc' Hne Hle. unfold arrange. rewrite Hso. unfold sib_le in Hle.
+  assert (Hcc : c ≠ c') by (intros ->; done).
+  assert (Hsame : ∀ l, c ∈ l → c' ∈ l → ent_leb c c' = true → split_before (sort_ents l) c c').
+  { intros l Hl Hl' He. apply sorted_before; [apply sort_ents_sorted|by rewrite sort_ents_perm|by rewrite sort_ents_perm|done|].
+    intros Hr. apply Hne. by apply ent_leb_antisym. }
+  assert (HinD : ∀ z, z ∈ cs → e_dir z = true → z ∈ sort_ents (filter (fun c => e_dir c) cs))
+    by (intros z Hz Hd; rewrite sort_ents_perm; apply elem_of_list_filter; split; [by rewrite Hd|done]).
+  assert (HinF : ∀ z, z ∈ cs → e_dir z = false → z ∈ sort_ents (filter (fun c => negb (e_dir c)) cs))
+    by (intros z Hz Hd; rewrite sort_ents_perm; apply elem_of_list_filter; split; [by rewrite Hd|done]).
+  assert (HfD : ∀ z, z ∈ cs → e_dir z = true → z ∈ filter (fun c => e_dir c) cs)
+    by (intros z Hz Hd; apply elem_of_list_filter; split; [by rewrite Hd|done]).
+  assert (HfF : ∀ z, z ∈ cs → e_dir z = false → z ∈ filter (fun c => negb (e_dir c)) cs)
+    by (intros z Hz Hd; apply elem_of_list_filter; split; [by rewrite Hd|done]).
+  destruct (o_dirs_first o).
+  - destruct (e_dir c) eqn:Ed, (e_dir c') eqn:Ed'; cbn in Hle; try done.
+    + apply split_before_l. apply Hsame; auto.
+    + apply app_before; auto.
+    + apply split_before_r. apply Hsame; auto.
+  - destruct (o_files_first o); [|by apply Hsame].
+    destruct (e_dir c) eqn:Ed, (e_dir c') eqn:Ed'; cbn in Hle; try done.
+    + apply split_before_r. apply Hsame; auto.
+    + apply app_before; auto.
+    + apply split_before_l. apply Hsame; auto.
+Qed.
+
+Lemma concat_opt_two {A B} (f : B → option (list A)) (L1 : list B) c L2 c' L3 kids :
+  concat_opt (map f (L1 ++ c :: L2 ++ c' :: L3)) = Some kids →
+  ∃ e1 e2 X Y Z, f c = Some e1 ∧ f c' = Some e2 ∧ kids = X ++ e1 ++ Y ++ e2 ++ Z.
+Proof.
+  revert kids. induction L1 as [|a L1 IH]; intros kids Hc.
+  - cbn [app map concat_opt] in Hc. destruct (f c) as [e1|] eqn:E1; [|done]. destruct (concat_opt _) as [k1|] eqn:Ek; [|done]. simplify_eq.
+    destruct (concat_opt_parts f (L2 ++ c' :: L3) k1 Ek c' ltac:(apply elem_of_app; right; left)) as (e2 & Y & Z & E2 & ->).
+    exists e1, e2, [], Y, Z. done.
+  - cbn [app map concat_opt] in Hc. destruct (f a) as [ea|] eqn:Ea; [|done]. destruct (concat_opt _) as [k1|] eqn:Ek; [|done]. simplify_eq.
+    destruct (IH k1 eq_refl) as (e1 & e2 & X & Y & Z & E1 & E2 & ->). exists e1, e2, (ea ++ X), Y, Z. by rewrite <- app_assoc.
+Qed.
+
+Definition kid_names (e : entry) : list (list N) := match e_files e with Some fs => elements fs | None => [] end.
+
+(* an item of the children's events lies in the events of exactly one child, at or below that child *)
+Lemma kids_part h m o pre stack e p kids : WF m → o_follow o = false → (∀ x, pre x = None) → m_ents m !! p = Some e →
+  le_max (S (length stack)) (o_max o) = true →
+  concat_opt (map (sw h (m_ents m) o pre (p :: stack)) (arrange o (child_entries (m_ents m) p false (kid_names e)))) = Some kids →
+  ∀ z, z ∈ oks kids → ∃ c n evs' X Y, c ∈ arrange o (child_entries (m_ents m) p false (kid_names e)) ∧ m_ents m !! (n :: p) = Some c ∧
+     sw h (m_ents m) o pre (p :: stack) c = Some evs' ∧ kids = X ++ evs' ++ Y ∧ z ∈ oks evs' ∧ (n :: p) `suffix_of` e_path z ∧
+     m_ents m !! e_path z = Some z.
+Proof.
+  intros HW Hnf Hpre He Hmax Ek. set (ns := kid_names e) in *. set (cs := child_entries (m_ents m) p false ns) in *.
+  pose proof (arrange_perm o cs) as Hperm.
+  assert (Hns : NoDup ns) by (subst ns; unfold kid_names; destruct (e_files e); [apply NoDup_elements|constructor]).
+  assert (Hcs : ∀ c, c ∈ arrange o cs → ∃ n, n ∈ ns ∧ m_ents m !! (n :: p) = Some c)
+    by (intros c Hc; rewrite Hperm in Hc; by apply child_entries_spec in Hc).
+  assert (Hnd : NoDup (map e_path (arrange o cs))) by (rewrite Hperm; apply child_entries_nodup; [by apply wf_key_ok|done]).
+  assert (Hpaths : ∀ c, c ∈ arrange o cs → ∃ n, e_path c = n :: p)
+    by (intros c Hc; destruct (Hcs c Hc) as (n & _ & Hn); exists n; by apply (wf_key m HW)).
+  destruct (kids_exact (sw h (m_ents m) o pre (p :: stack)) (fun c x => sel_under (m_ents m) o (e_path c) (S (length stack)) x) p (arrange o cs) kids Ek) as [Hiffk _].
+  { intros c evs' Hc Hf. destruct (Hcs c Hc) as (n & _ & Hn). rewrite (wf_key m HW _ _ Hn).
+    apply (sw_exact h m o pre (p :: stack) c (n :: p) evs' HW Hnf Hpre Hn); done. }
+  { intros c z Hc (q & Hq & Hs & _). by rewrite (wf_key m HW _ _ Hq). }
+  { done. } { done. }
+  intros z Hz. apply Hiffk in Hz as (c & Hc & Hsel). destruct (Hcs c Hc) as (n & _ & Hn).
+  destruct (concat_opt_parts _ _ _ Ek c Hc) as (evs' & X & Y & Hf & HK).
+  exists c, n, evs', X, Y. split; [done|]. split; [done|]. split; [done|]. split; [done|].
+  destruct (sw_exact h m o pre (p :: stack) c (n :: p) evs' HW Hnf Hpre Hn Hmax Hf) as [Hiffc _].
+  rewrite (wf_key m HW _ _ Hn) in Hsel. split; [by apply Hiffc|].
+  destruct Hsel as (q & Hq & Hs & _). rewrite (wf_key m HW _ _ Hq). done.
+Qed.
+
+Lemma before_two X A Y B Z x y : x ∈ A → y ∈ B → before (X ++ A ++ Y ++ B ++ Z) x y.
+Proof.
+  intros (A1 & A2 & ->)%elem_of_list_split (B1 & B2 & ->)%elem_of_list_split.
+  exists (X ++ A1), (A2 ++ Y ++ B1), (B2 ++ Z). rewrite <- ?app_assoc. cbn [app]. rewrite <- ?app_assoc. cbn [app]. done.
+Qed.
+
+Lemma suffix_cons_cases {A} (a b : A) p q : (a :: p) `suffix_of` (b :: q) → (a = b ∧ p = q) ∨ (a :: p) `suffix_of` q.
+Proof.
+  intros [j Hj]. destruct j as [|c j]; [left; by injection Hj|]. right. cbn in Hj. injection Hj as _ ->. by exists j.
+Qed.
+
+Lemma sw_siblings h : ∀ m o pre stack e p evs, WF m → o_follow o = false → (∀ x, pre x = None) → o_sort o = true →
+  m_ents m !! p = Some e → le_max (length stack) (o_max o) = true →
+  sw h (m_ents m) o pre stack e = Some evs →
+  ∀ x y q n n', x ∈ oks evs → y ∈ oks evs → e_path x = n :: q → e_path y = n' :: q → n ≠ n' → sib_le o x y = true →
+    before (oks evs) x y.
+Proof.
+  induction h as [|h IH]; intros m o pre stack e p evs HW Hnf Hpre Hso He Hmax Hsw x y q n n' Hx Hy Hpx Hpy Hnn Hle; [done|].
+  destruct (sw_exact (S h) m o pre stack e p evs HW Hnf Hpre He Hmax Hsw) as [Hiff _].
+  pose proof (wf_key m HW _ _ He) as Hp. rewrite sw_S in Hsw. cbn zeta in Hsw.
+  rewrite (loops_nofollow o stack e Hnf), (enters_nofollow o e Hnf), Hpre in Hsw.
+  set (d := length stack) in *.
+  assert (Hunder : ∀ z, z ∈ oks evs → p `suffix_of` e_path z).
+  { intros z Hz. apply Hiff in Hz as (q' & Hq & Hs & _). by rewrite (wf_key m HW _ _ Hq). }
+  (* neither is the entry at p itself *)
+  assert (Hxp : e_path x ≠ p).
+  { intros E. pose proof (Hunder y Hy) as Hs. rewrite <- E, Hpx, Hpy in Hs.
+    apply suffix_cons_cases in Hs as [[? _]|Hs]; [done|]. apply suffix_length in Hs. cbn in Hs. lia. }
+  assert (Hyp : e_path y ≠ p).
+  { intros E. pose proof (Hunder x Hx) as Hs. rewrite <- E, Hpx, Hpy in Hs.
+    apply suffix_cons_cases in Hs as [[? _]|Hs]; [done|]. apply suffix_length in Hs. cbn in Hs. lia. }
+  destruct (e_dir e && negb (e_link e) && lt_max d (o_max o)) eqn:Eent.
+  - apply andb_true_iff in Eent as [Hrd Hlt].
+    unfold children in Hsw. rewrite Hp, He, Hnf in Hsw. fold (kid_names e) in Hsw.
+    destruct (concat_opt _) as [kids|] eqn:Ek; [|done].
+    pose proof (kids_part h m o pre stack e p kids HW Hnf Hpre He ltac:(by apply le_max_S) Ek) as Hpart.
+    set (cs := child_entries (m_ents m) p false (kid_names e)) in *.
+    assert (Hboth : x ∈ oks kids → y ∈ oks kids → before (oks kids) x y).
+    { intros Hxk Hyk. destruct (Hpart x Hxk) as (c & n1 & evs1 & X & Y & Hc & Hn1 & Hf1 & HK & Hxc & Hsx & Hmx).
+      destruct (Hpart y Hyk) as (c' & n2 & evs2 & X' & Y' & Hc' & Hn2 & Hf2 & HK' & Hyc & Hsy & Hmy).
+      rewrite Hpx in Hsx, Hmx. rewrite Hpy in Hsy, Hmy.
+      apply suffix_cons_cases in Hsx as [[-> ->]|Hsx].
+      - (* x and y are children of p themselves *)
+        apply suffix_cons_cases in Hsy as [[-> _]|Hsy]; [|apply suffix_length in Hsy; cbn in Hsy; lia].
+        rewrite Hn1 in Hmx. rewrite Hn2 in Hmy. simplify_eq.
+        assert (Hfn : file_name_of x ≠ file_name_of y) by (unfold file_name_of; rewrite Hpx, Hpy; cbn; congruence).
+        pose proof (arrange_perm o cs) as Hperm.
+        destruct (arrange_before o cs x y Hso ltac:(by rewrite <- Hperm) ltac:(by rewrite <- Hperm) Hfn Hle) as (L1 & L2 & L3 & HL).
+        rewrite HL in Ek. destruct (concat_opt_two _ _ _ _ _ _ _ Ek) as (e1 & e2 & X1 & Y1 & Z1 & E1 & E2 & HK1).
+        rewrite Hf1 in E1. rewrite Hf2 in E2. simplify_eq. rewrite HK1, !oks_app. by apply before_two.
+      - (* deeper: both below the same child *)
+        apply suffix_cons_cases in Hsy as [[-> Hq]|Hsy]; [subst q; apply suffix_length in Hsx; cbn in Hsx; lia|].
+        pose proof (suffix_cons_same _ _ _ _ Hsx Hsy) as ->. rewrite Hn1 in Hn2. injection Hn2 as <-.
+        rewrite Hf1 in Hf2. injection Hf2 as <-.
+        pose proof (IH m o pre (p :: stack) c (n2 :: p) evs1 HW Hnf Hpre Hso Hn1 ltac:(by apply le_max_S) Hf1 x y q n n' Hxc Hyc Hpx Hpy Hnn Hle) as Hb.
+        rewrite HK, !oks_app. by apply before_mid. }
+    assert (Hself : ∀ z, z ∈ oks evs → e_path z ≠ p → z ∈ oks kids).
+    { intros z Hz Hzp. destruct (selected o d e); [destruct (e_dir e && o_contents_first o)|]; simplify_eq.
+      - rewrite oks_pre, oks_app, oks_ok in Hz. cbn [oks flat_map] in Hz. apply elem_of_app in Hz as [Hz|Hz%elem_of_list_singleton]; [done|by subst z].
+      - rewrite oks_pre, oks_ok in Hz. apply elem_of_cons in Hz as [->|Hz]; done.
+      - by rewrite oks_pre in Hz. }
+    pose proof (Hboth (Hself x Hx Hxp) (Hself y Hy Hyp)) as (l1 & l2 & l3 & Hl).
+    destruct (selected o d e); [destruct (e_dir e && o_contents_first o)|]; simplify_eq.
+    + rewrite oks_pre, oks_app, oks_ok, Hl. cbn [oks flat_map]. exists l1, l2, (l3 ++ [e]). rewrite <- ?app_assoc. cbn [app]. by rewrite <- ?app_assoc.
+    + rewrite oks_pre, oks_ok, Hl. by exists (e :: l1), l2, l3.
+    + rewrite oks_pre, Hl. by exists l1, l2, l3.
+  - exfalso. destruct (selected o d e); simplify_eq; cbn [oks flat_map app] in *.
+    + apply elem_of_list_singleton in Hx as ->. done.
+    + by apply elem_of_nil in Hx.
+Qed.
+
+Theorem walk_siblings m o pre rootp r evs : WF m → o_follow o = false → (∀ x, pre x = None) → o_sort o = true →
+  m_ents m !! rootp = Some r → walk (m_ents m) o pre rootp = inl (Done evs) →
+  ∀ x y q n n', x ∈ oks evs → y ∈ oks evs → e_path x = n :: q → e_path y = n' :: q → n ≠ n' → sib_le o x y = true →
+    before (oks evs) x y.
+Proof.
+  intros HW Hnf Hpre Hso Hr Hw. destruct (walk_nofollow (m_ents m) o pre rootp r (wf_key_ok m HW) Hnf Hr) as (h & evs' & Hsw & Hw').
+  rewrite Hw in Hw'. simplify_eq. unfold sw_walk in Hsw. rewrite Hnf in Hsw.
+  assert (Hm : le_max (length (@nil rpath)) (o_max o) = true) by (destruct (o_max o); done).
+  exact (sw_siblings h m o pre [] r rootp evs' HW Hnf Hpre Hso Hr Hm Hsw).
+Qed.
+
+(* ---- the listing helpers: paths / dirs / files / all_paths / all_dirs / all_files ---- *)
+From RV Require Import Path.Expand Memfs.Ops Memfs.WalkOps.
+
+Definition shallow (k : listing) : bool := match k with LPaths | LDirs | LFiles => true | _ => false end.
+Definition kind_sel (k : listing) (x : entry) : bool :=
+  match k with LDirs | LAllDirs => e_dir x | LFiles | LAllFiles => e_file x | _ => true end.
+
+Lemma oks_until_err_oks es : oks_until_err (map IOk es) = (es, None).
+Proof. induction es as [|e es IH]; [done|]. cbn. by rewrite IH. Qed.
+
+(* a listing of an existing directory succeeds with exactly the entries strictly below it (one level for the shallow
+   helpers) of the asked kind, each once; the argument itself is never included *)
+Theorem listing_exact env m k s p : WF m → resolve env m s = inl p → is_dir_at m p = true →
+  ∃ es, listing_op env m k s = Done (inl (map (fun e => render_rpath (e_path e)) es)) ∧ NoDup (map e_path es) ∧
+    ∀ x, x ∈ es ↔ ∃ q, m_ents m !! q = Some x ∧ p `suffix_of` q ∧ q ≠ p ∧
+                     (shallow k = true → length q = S (length p)) ∧ kind_sel k x = true.
+Proof.
+  intros HW Hres Hd. unfold listing_op. rewrite Hres, Hd. cbn [negb].
+  unfold is_dir_at in Hd. destruct (m_ents m !! p) as [r|] eqn:Hr; [|done].
+  destruct (walk_exact m (listing_opts k) no_pre p r HW ltac:(by destruct k) ltac:(done) Hr) as (evs & -> & Hit & Hiff & Hnd).
+  rewrite Hit, oks_until_err_oks. exists (oks evs). split; [done|]. split; [done|].
+  intros x. rewrite Hiff. split.
+  - intros (q & Hq & Hs & Hsel & Hmax). exists q. split; [done|]. split; [done|].
+    pose proof (suffix_length _ _ Hs) as Hl.
+    assert (Hmin : 1 ≤ length q - length p).
+    { unfold selected in Hsel. apply andb_true_iff in Hsel as [Hm _]. apply negb_true_iff, Nat.ltb_ge in Hm. by destruct k. }
+    split; [intros ->; lia|]. split.
+    + intros Hsh. destruct k; try done; cbn in Hmax; apply Nat.leb_le in Hmax; lia.
+    + unfold selected in Hsel. apply andb_true_iff in Hsel as [_ Hp]. by destruct k.
+  - intros (q & Hq & Hs & Hne & Hsh & Hk). exists q. split; [done|]. split; [done|].
+    pose proof (suffix_length _ _ Hs) as Hl.
+    assert (Hlt : length p < length q).
+    { destruct (decide (length q = length p)) as [E|]; [|lia]. exfalso. apply Hne. destruct Hs as [j ->].
+      rewrite app_length in E. destruct j; [done|cbn in E; lia]. }
+    split.
+    + unfold selected. apply andb_true_iff. split; [|by destruct k].
+      apply negb_true_iff, Nat.ltb_ge. destruct k; cbn; lia.
+    + destruct k; cbn; try done; specialize (Hsh eq_refl); apply Nat.leb_le; lia.
+Qed.
